@@ -13,13 +13,19 @@ VARIABLE cur
 Versions == << [core |-> 0, pre |-> 0], [core |-> 1, pre |-> 1], [core |-> 1, pre |-> 2], [core |-> 1, pre |-> 0], [core |-> 1, pre |-> 0], [core |-> 2, pre |-> 0] >>
 VerIdx == 0..Len(Versions)
 (* "embeds-prefix": an extra file whose name merely CONTAINS notation-<name> (it is not a candidate) *)
-ExtraSeqs == IF Variant = "full" THEN {<<>>, <<"aaa-before">>, <<"zzz-after">>, <<"aaa-before", "zzz-after">>, <<"embeds-prefix">>, <<"aaa-before", "embeds-prefix", "zzz-after">>}
-             ELSE {<<>>, <<"aaa-before", "zzz-after">>, <<"embeds-prefix">>}
+(* "cand-before" / "cand-after": a NON-executable data file whose name has the plugin file-name format (notation-aaa, notation-zzz)
+   and sorts before / after the candidate *)
+ExtraSeqs == IF Variant = "full" THEN {<<>>, <<"aaa-before">>, <<"zzz-after">>, <<"aaa-before", "zzz-after">>, <<"embeds-prefix">>, <<"aaa-before", "embeds-prefix", "zzz-after">>,
+                                       <<"cand-before">>, <<"cand-after">>, <<"cand-before", "cand-after">>, <<"aaa-before", "cand-before", "zzz-after">>}
+             ELSE {<<>>, <<"aaa-before", "zzz-after">>, <<"embeds-prefix">>, <<"cand-before">>, <<"cand-after">>}
 Shapes == {[shape |-> "file", cand |-> "exec"], [shape |-> "file", cand |-> "nonexec"], [shape |-> "file", cand |-> "misnamed"], [shape |-> "dir", cand |-> "exec"],
            [shape |-> "dir", cand |-> "nonexec"], [shape |-> "dir", cand |-> "two"], [shape |-> "dir", cand |-> "none"]}
-Sources == {[ver |-> v, meta |-> m, shape |-> sh.shape, cand |-> sh.cand, extras |-> ex, subdir |-> sd, overwrite |-> ow] :
+AllSources == {[ver |-> v, meta |-> m, shape |-> sh.shape, cand |-> sh.cand, extras |-> ex, subdir |-> sd, overwrite |-> ow] :
               v \in VerIdx, m \in (IF Variant = "full" THEN {"ok", "invalid", "misnamed"} ELSE {"ok", "misnamed"}), sh \in Shapes, ex \in ExtraSeqs,
               sd \in (IF Variant = "full" THEN BOOLEAN ELSE {TRUE}), ow \in BOOLEAN}
+(* a directory whose only name-format file is such a data file would install THAT as a plugin of another name: left out;
+   a single-file source has no extras that matter *)
+Sources == {s \in AllSources : s.cand \in {"none", "misnamed"} => Range(s.extras) \cap CandLike = {}}
 
 Init == cur = NoPlugin
 Install   == \E src \in Sources : cur' = ApplyInstall(Versions, cur, src)
